@@ -1110,28 +1110,56 @@ namespace chaiscript {
           }
         }
 
-        void process_hex() {
-          if (!hex_matches.empty()) {
-            auto val = stoll(hex_matches, nullptr, 16);
-            match.push_back(char_type(val));
+        /// Must be called once the last character of the literal has been fed to parse():
+        /// completes a pending escape sequence and reports it if it is malformed
+        /// (the destructor cannot report anything)
+        void finish() {
+          if (is_octal) {
+            process_octal();
           }
+
+          if (is_hex) {
+            process_hex();
+          }
+
+          if (unicode_size > 0) {
+            process_unicode();
+          }
+
+          if (is_escaped) {
+            is_escaped = false;
+            throw exception::eval_error("Incomplete escape sequence in string");
+          }
+        }
+
+        void process_hex() {
+          const auto digits = hex_matches;
           hex_matches.clear();
           is_escaped = false;
           is_hex = false;
+          if (digits.empty()) {
+            throw exception::eval_error("Incomplete hex escape sequence");
+          }
+          auto val = stoll(digits, nullptr, 16);
+          match.push_back(char_type(val));
         }
 
         void process_octal() {
-          if (!octal_matches.empty()) {
-            auto val = stoll(octal_matches, nullptr, 8);
-            match.push_back(char_type(val));
-          }
+          const auto digits = octal_matches;
           octal_matches.clear();
           is_escaped = false;
           is_octal = false;
+          if (!digits.empty()) {
+            auto val = stoll(digits, nullptr, 8);
+            if (val > static_cast<long long>(std::numeric_limits<std::make_unsigned_t<char_type>>::max())) {
+              throw exception::eval_error("Octal escape sequence out of range");
+            }
+            match.push_back(char_type(val));
+          }
         }
 
         void process_unicode() {
-          const auto ch = static_cast<uint32_t>(std::stoi(hex_matches, nullptr, 16));
+          const auto digits = hex_matches;
           const auto match_size = hex_matches.size();
           hex_matches.clear();
           is_escaped = false;
@@ -1142,7 +1170,8 @@ namespace chaiscript {
           if (u_size != match_size) {
             throw exception::eval_error("Incomplete unicode escape sequence");
           }
-          if (u_size == 4 && ch >= 0xD800 && ch <= 0xDFFF) {
+          const auto ch = static_cast<uint32_t>(std::stoul(digits, nullptr, 16));
+          if (ch >= 0xD800 && ch <= 0xDFFF) {
             throw exception::eval_error("Invalid 16 bit universal character");
           }
 
@@ -1157,7 +1186,7 @@ namespace chaiscript {
             buf[1] = static_cast<char>(0x80 | ((ch >> 6) & 0x3F));
             buf[2] = static_cast<char>(0x80 | (ch & 0x3F));
             match.append(buf, 3);
-          } else if (ch < 0x200000) {
+          } else if (ch < 0x110000) {
             buf[0] = static_cast<char>(0xF0 | (ch >> 18));
             buf[1] = static_cast<char>(0x80 | ((ch >> 12) & 0x3F));
             buf[2] = static_cast<char>(0x80 | ((ch >> 6) & 0x3F));
@@ -1356,6 +1385,8 @@ namespace chaiscript {
               }
             }
 
+            cparser.finish();
+
             if (cparser.saw_interpolation_marker) {
               match.push_back('$');
             }
@@ -1419,6 +1450,7 @@ namespace chaiscript {
             for (auto s = start + 1, end = m_position - 1; s != end; ++s) {
               cparser.parse(*s, start.line, start.col, *m_filename);
             }
+            cparser.finish();
           }
 
           if (match.size() != 1) {
